@@ -385,9 +385,22 @@ def rule_pair_sync_flag(ctx):
     ADT, FIELD = 'common::concurrent::housekeeper::Housekeeper', 'is_sync_running'
     if not ctx.has_sync:
         return r
-    ctx.adt_field(ADT, FIELD)
+    fdef = ctx.adt_field(ADT, FIELD)
     sites = _flag_sites(ctx, ADT, FIELD)
     fns = sorted({s[0] for s in sites})
+    wrappers = set()
+    fty = norm(str((fdef.get('ty') or {}).get('adt') or ''))
+    if not fns and fty in ctx.prog.adts:
+        # the flag is wrapped in a crate-local type: its writers are the methods of that type that write the atomic inside; the pairing is
+        # judged in the functions that call them on Housekeeper.is_sync_running, with those methods stepped into
+        for v_ in ctx.prog.adts[fty]['variants']:
+            for f_ in v_['fields']:
+                if str((f_.get('ty') or {}).get('s', '')).startswith('std::sync::atomic::'):
+                    for s_ in _flag_sites(ctx, fty, f_['name']):
+                        sites.append(s_)
+                        wrappers.add(ctx.prog.bodies[s_[0]].root or s_[0])
+        cl = ctx.prog.callers()
+        fns = sorted({(ctx.prog.bodies[c_].root or c_) for w_ in wrappers for c_ in cl.get(w_, ()) if (ctx.prog.bodies[c_].root or c_) not in wrappers})
     if not fns:
         raise CheckFailure('PAIR-sync-flag: no writer of %s.%s found' % (ADT, FIELD))
 
@@ -396,7 +409,7 @@ def rule_pair_sync_flag(ctx):
 
     npaths = 0
     for nid in fns:
-        sx = ctx.symex(inline_depth=2)
+        sx = ctx.symex(inline_depth=2, inline_pred=(lambda n_, bb, d, _w=frozenset(wrappers): True if n_ in _w else None))
         paths = sx.run(nid)
         for p in paths:
             if p.diverged:
@@ -420,6 +433,12 @@ def rule_pair_sync_flag(ctx):
                     for c, v in p.conds:
                         if c == ('discr', res):
                             ok = (v == 0)
+                        # `.is_ok()` / `.is_err()` of the result: eq(k, tag) literals
+                        if isinstance(c, tuple) and c and c[0] == 'cmp' and c[1] in ('eq', 'ne') and ('discr', res) in (c[2], c[3]) and isinstance(v, bool):
+                            k_ = c[3] if c[2] == ('discr', res) else c[2]
+                            if k_ in (('c', 0), ('c', 1)):
+                                is_tag = v if c[1] == 'eq' else (not v)
+                                ok = is_tag if k_ == ('c', 0) else (not is_tag)
                     if new == ('c', True) and ok:
                         held, held_line = True, e[3]
                     elif new == ('c', False) and ok:
@@ -444,7 +463,7 @@ def rule_pair_sync_flag(ctx):
                           path=[fmt(c) + ' == ' + str(v) for c, v in p.conds],
                           expected='store(false) on every path after the successful compare_exchange')
     r.require_floor(2, 'paths through the flag-writing function(s)')
-    if not ctx.cache.get('pair_saw_reset'):
+    if not ctx.cache.get('pair_saw_reset') and not r.violations:
         raise CheckFailure('PAIR-sync-flag: no path with a successful set followed by a reset was recognised (the rule would pass vacuously)')
     r.notes.append('writers of the flag: %s' % ', '.join('%s:%s' % (n, m) for n, m, _ in sites))
     r.assumptions.append('unwind paths (a panicking user Hash/Eq/Drop inside maintenance) are not analysed')
@@ -734,6 +753,13 @@ def rule_loops(ctx):
                 # iter::successors(..) whose successor closure is that accessor
                 adv_clo = {c for c in prog.closures_of.get(nid, []) if ('read', 'common::deque::DeqNode', 'next') in eff.transitive(c)}
                 succ_iter = any(ext_ == 'std::iter::successors' and set(ps_) & adv_clo for _bi, t_ in b.calls() for _tg, ext_, ps_ in [prog.call_targets(b, t_)])
+                # ... or such an iterator is built by a helper of the list module (a lazy node iterator)
+                for _bi, t_ in b.calls():
+                    for tg_ in prog.call_targets(b, t_)[0]:
+                        tb_ = prog.bodies[tg_]
+                        if str(tb_.locals[0]['ty'].get('adt') or '') == 'std::iter::Successors' and any(
+                                ('read', 'common::deque::DeqNode', 'next') in eff.transitive(c_) for c_ in prog.closures_of.get(tg_, [])):
+                            succ_iter = True
                 S = _blocks_calling(ctx, b, body, lambda tg, ext, ps, t: any(
                     ('read', 'common::deque::DeqNode', 'next') in eff.direct.get(x, ()) for x in tg) or
                     (succ_iter and ext == '<std::iter::Successors as std::iter::Iterator>::next'))
@@ -920,21 +946,45 @@ def rule_flush_trigger(ctx):
     for w in ws:
         from_write |= prog.reachable_from([w])
     from_read = prog.reachable_from([_named(ctx, 'sync.get_lookup')])
-    triggers = sorted(n for n, b in prog.bodies.items() if b.kind != 'closure' and n.startswith('sync::') and (prog.callees(n) & R.try_sync)
+    triggers = sorted(n for n, b in prog.bodies.items() if b.kind != 'closure' and n.startswith(('sync::', 'common::concurrent::')) and (prog.callees(n) & R.try_sync)
                       and n not in R.try_sync and not prog.bodies[n].is_pub)
     n_inst = 0
-    for F in triggers:
+    # a trigger whose decision is handed in by its caller (a predicate parameter) is judged in the context of each caller: the analysis starts
+    # at the caller, with the trigger and the caller's predicate closure stepped into
+    callers_of = prog.callers()
+
+    def lifted(F, chain, depth=0):
+        bF = prog.bodies[F]
+        # (a predicate, or the queue length itself)
+        takes_pred = any('Fn' in bF.local_ty(i)['s'] or 'closure' in bF.local_ty(i)['s'] or bF.local_ty(i)['s'] == 'usize' for i in range(1, bF.argc + 1))
+        if not takes_pred or depth >= 3:
+            return [(F, chain)]
+        out_ = []
+        for c_ in sorted(callers_of.get(F, ())):
+            if c_ in prog.bodies and prog.bodies[c_].kind != 'closure' and c_ not in chain:
+                out_ += lifted(c_, chain + [F], depth + 1)
+        return out_ or [(F, chain)]
+    roots = []
+    for F0 in triggers:
+        for F, chain in lifted(F0, []):
+            if (F, tuple(chain)) not in [(a_, tuple(c_)) for a_, c_ in roots]:
+                roots.append((F, chain))
+    for F, chain in roots:
         kinds = [k for k, S in (('write', from_write), ('read', from_read)) if F in S]
         if not kinds:
             continue
         b = prog.bodies[F]
 
-        def pol(n_, bb, d):
+        def pol(n_, bb, d, _chain=tuple(chain), _F=F):
+            if n_ in _chain:
+                return True
+            if bb.kind == 'closure' and _chain and n_.startswith(_F + '::{closure'):
+                return True
             if n_ in R.try_sync or bb.kind == 'closure':
                 return False
             return True if (not bb.loops() and len(bb.blocks) <= 30 and not any(e[0] == 'write' for e in ctx.eff.transitive(n_))) else False
         try:
-            paths = [p for p in ctx.symex(inline_depth=4, loop_visits=2, inline_pred=pol).run(F) if not p.diverged]
+            paths = [p for p in ctx.symex(inline_depth=4 + 2 * len(chain), loop_visits=2, inline_pred=pol).run(F) if not p.diverged]
         except _PL:
             raise CheckFailure('CMP-flush-trigger: path limit in %s' % F)
 
@@ -965,10 +1015,16 @@ def rule_flush_trigger(ctx):
             for kind in kinds:
                 ok, seen = False, []
                 for c, v in p.conds:
-                    if isinstance(c, tuple) and c[0] == 'cmp' and c[1] == 'le' and v is False and isinstance(c[2], tuple) and c[2][0] == 'c' and isinstance(c[2][1], int):
-                        ck = chan_kind(c[3])
-                        seen.append((c[2][1], sorted(ck)))
-                        if ck == {kind} and 0 < c[2][1] <= size[kind]:
+                    # `len < point` established: !(point <= len) or (len < point)
+                    bound = lent = None
+                    if isinstance(c, tuple) and c[0] == 'cmp' and c[1] == 'le' and v is False:
+                        bound, lent = c[2], c[3]
+                    elif isinstance(c, tuple) and c[0] == 'cmp' and c[1] == 'lt' and v is True:
+                        bound, lent = c[3], c[2]
+                    if bound is not None and isinstance(bound, tuple) and bound[0] == 'c' and isinstance(bound[1], int) and not isinstance(bound[1], bool):
+                        ck = chan_kind(lent)
+                        seen.append((bound[1], sorted(ck)))
+                        if ck == {kind} and 0 < bound[1] <= size[kind]:
                             ok = True
                 n_inst += 1
                 r.instance(function=F, path_without_try_sync=True, queue=kind, below_flush_point_established=ok, length_tests=seen)
